@@ -39,7 +39,16 @@ fn front_end(text: &str) -> Value {
             let pretty = guarded(move || e.prettify(&t2)).is_ok();
             json!({"nlines": nlines, "outcome": "err", "phase": "front", "errors": sp, "nerrors": n, "prettify_ok": pretty})
         }
-        Err(m) => json!({"nlines": nlines, "outcome": "panic", "phase": m, "errors": [], "nerrors": 0, "prettify_ok": true}),
+        Err(m) => {
+            // a compiler panic of an accepted program: does the typed program bind a name to a value of unresolved integer
+            // type (the cause of the open finding `unspecified-binding`)?
+            let t3 = text.to_string();
+            let unspec = match guarded(move || garble_lang::check(&t3)) {
+                Ok(Ok(typed)) => guarded(|| { let cs = std::collections::HashMap::new(); let mut pr = crate::proj::Proj::new(&typed, &cs); let whole = pr.program("main"); crate::c05::unspecified_bindings(&whole["fns"]) }).unwrap_or(false),
+                _ => false,
+            };
+            json!({"nlines": nlines, "outcome": "panic", "phase": m, "errors": [], "nerrors": 0, "prettify_ok": true, "unspec_binding": unspec})
+        }
     }
 }
 
